@@ -243,7 +243,7 @@ Qed.
 
 (* ---------------- termination of jls_core_rd_chunk_end: the backward scan ---------------- *)
 Lemma rpp_end_loop_nofuel : forall fuel s e l,
-  (e / 1000 + 2 <= N.of_nat fuel \/ (e = 24 /\ (1 <= fuel)%nat)) -> rp_flt s <> RpF_fuel ->
+  e / 992 + 2 <= N.of_nat fuel -> rp_flt s <> RpF_fuel ->
   rp_flt (fst (rp_end_loop fuel s e l)) <> RpF_fuel.
 Proof.
   induction fuel as [| fu IH]; intros s e l Hm Hf; [lia |].
@@ -256,17 +256,15 @@ Proof.
   destruct (rp_bk_fread s1 (e - (e - RpEnd_window))) as [s2 d]. cbn [fst] in F2.
   assert (H2 : rp_flt s2 <> RpF_fuel) by congruence.
   destruct (rp_len d <? e - (e - RpEnd_window)); [exact H2 |].
-  destruct (e - (e - RpEnd_window) <? SIZEOF_chunk_header) eqn:SM.
+  destruct (e - (e - RpEnd_window) <? SIZEOF_chunk_header).
   { cbn [fst]. unfold rp_io_fault. cbn [rp_flt]. destruct (rp_flt s2 =? 0); [discriminate | exact H2]. }
-  apply N.ltb_ge in SM. unfold RpEnd_window, SIZEOF_chunk_header in SM.
   match goal with |- context [rp_try_cands ?a ?b ?c] => pose proof (rpp_try_cands_nofuel c a b H2) as F3; destruct (rp_try_cands a b c) as [s3 found] end.
   cbn [fst] in F3. destruct found; [exact F3 |].
-  apply IH; [| exact F3]. unfold RpEnd_window, SIZEOF_chunk_header.
-  destruct Hm as [Hm | (He & _)]; [| lia].
-  destruct (N.lt_ge_cases e 1024) as [C | C]; [right; lia | left; lia].
+  destruct (e - RpEnd_window =? 0) eqn:P0; [exact F3 | apply N.eqb_neq in P0].
+  apply IH; [| exact F3]. unfold RpEnd_window, SIZEOF_chunk_header in *. lia.
 Qed.
 Theorem rpp_rd_chunk_end_nofuel : forall s, rp_flt s <> RpF_fuel -> rp_flt (fst (rp_rd_chunk_end s)) <> RpF_fuel.
-Proof. intros s H. unfold rp_rd_chunk_end. apply rpp_end_loop_nofuel; [left; lia | exact H]. Qed.
+Proof. intros s H. unfold rp_rd_chunk_end. apply rpp_end_loop_nofuel; [lia | exact H]. Qed.
 
 Lemma rpp_raw_open_state : forall s a, rp_flt s <> RpF_fuel ->
   rp_r_valid (rp_r (fst (rp_raw_open s a))) = false /\ rp_flt (fst (rp_raw_open s a)) <> RpF_fuel.
